@@ -100,7 +100,9 @@ func (op *pipelineOp) exec(fm *Frame) Exception {
 	wg.Add(nforms)
 	excs := make([]Exception, nforms)
 
-	var nextIn *Port
+	// The reading end of the pipe to the next form, and the writing end it is
+	// paired with.
+	var nextIn, nextInWriter *Port
 
 	// For each form, create a dedicated evalCtx and run asynchronously
 	for i, form := range op.forms {
@@ -111,9 +113,9 @@ func (op *pipelineOp) exec(fm *Frame) Exception {
 		// The reading end of the pipe from the previous form, if any. The form
 		// may replace newFm.ports[0] with a redirection, so keep it separately
 		// for signalling the previous form when this one finishes.
-		var inputPipe *Port
+		var inputPipe, inputPipeWriter *Port
 		if inputIsPipe {
-			inputPipe = nextIn
+			inputPipe, inputPipeWriter = nextIn, nextInWriter
 			newFm.ports[0] = nextIn
 			growAccess(&fops, 0).File = true
 		}
@@ -127,9 +129,9 @@ func (op *pipelineOp) exec(fm *Frame) Exception {
 				// previous form that its reader is gone, don't start the
 				// remaining forms, and finish like a shorter pipeline would.
 				if inputIsPipe {
-					*inputPipe.sendError = errs.ReaderGone{}
-					close(inputPipe.sendStop)
-					inputPipe.readerGone.Store(true)
+					*inputPipeWriter.sendError = errs.ReaderGone{}
+					close(inputPipeWriter.sendStop)
+					inputPipeWriter.readerGone.Store(true)
 					inputPipe.File.Close()
 				}
 				excs[i] = fm.errorpf(op, "failed to create pipe: %s", e)
@@ -140,14 +142,17 @@ func (op *pipelineOp) exec(fm *Frame) Exception {
 			sendStop := make(chan struct{})
 			sendError := new(error)
 			readerGone := new(atomic.Bool)
-			newFm.ports[1] = &Port{
+			nextInWriter = &Port{
 				File: writer, Chan: ch,
 				sendStop: sendStop, sendError: sendError, readerGone: readerGone}
+			newFm.ports[1] = nextInWriter
 			*growAccess(&fops, 1) = formOwnedPort{File: true, Chan: true}
 			nextIn = &Port{
 				File: reader, Chan: ch,
-				// Store in input port for ease of retrieval later
-				sendStop: sendStop, sendError: sendError, readerGone: readerGone}
+				// The reading end does not support value output (it can be
+				// made an output with ">&0"): the writing end closes the
+				// channel, and sending on a closed channel panics.
+				sendStop: closedSendStop, sendError: &ErrPortDoesNotSupportValueOutput}
 		}
 		f := func(form *formOp, fops []formOwnedPort, pexc *Exception) {
 			exc := form.exec(newFm, &fops)
@@ -155,7 +160,7 @@ func (op *pipelineOp) exec(fm *Frame) Exception {
 				*pexc = exc
 			}
 			if inputIsPipe {
-				input := inputPipe
+				input := inputPipeWriter
 				*input.sendError = errs.ReaderGone{}
 				close(input.sendStop)
 				input.readerGone.Store(true)
